@@ -1500,9 +1500,17 @@ class Engine:
         if isinstance(v, Tup):
             return z3.BoolVal(len(v.items) > 0)
         if isinstance(v, Opt):
+            # Optional[T]: not None AND the value itself is truthy (an empty list, 0, '' are falsy)
             if is_bool(v.val):
                 return z3.And(z3.Not(v.isnone), v.val)
-            return z3.Not(v.isnone)
+            if isinstance(v.val, NoneV):
+                return z3.BoolVal(False)
+            if v.empty_text:
+                return z3.Not(v.isnone)          # a text modelled as (is-empty, code): truthy iff not empty
+            if is_int(v.val) or is_real(v.val):
+                raise EngineError("truthiness of an Optional number / string (0 and '' are falsy, and strings are carried as codes): "
+                                  "outside the encoding - the code should test `is not None`")
+            return z3.And(z3.Not(v.isnone), self.truthy(v.val, st))
         if isinstance(v, NoneV):
             return z3.BoolVal(False)
         return self.truthy_other(v, st)
